@@ -206,11 +206,11 @@ theorem frame_ops_keep_stages (st : St) (op : SOp) (hf : isFrameOp op = true) :
     · exact view_applyS_frame st op hf
   exact ⟨by have := congrArg St.sys hv; simpa using this, by rw [curs_of_view, hv, ← curs_of_view]⟩
 
-/-! ## version counters -/
+/-! ## stage version counters (value versions: see the section at the end) -/
 
-/-- **version_bumps (system stage versions).**  An operation that invalidates stage `g` increases by exactly one the
+/-- **stage versions (system).**  An operation that invalidates stage `g` increases by exactly one the
 version of every system stage `g ≤ i ≤ (old system stage)` and leaves all others unchanged. -/
-theorem version_bumps_system {st : St} (hI : Inv st) (op : SOp) (g : Nat) (hiv : invalStage st op = some g)
+theorem stage_version_bumps_system {st : St} (hI : Inv st) (op : SOp) (g : Nat) (hiv : invalStage st op = some g)
     (hexc : excOf st op = none) (i : Nat) :
     (stepS st op).sysVers.getD i 0 =
       if g ≤ i ∧ i ≤ st.sys then st.sysVers.getD i 0 + 1 else st.sysVers.getD i 0 := by
@@ -232,9 +232,9 @@ theorem version_bumps_system {st : St} (hI : Inv st) (op : SOp) (g : Nat) (hiv :
       have h2 : st.sysVers[i]? = none := List.getElem?_eq_none (by omega)
       simp [List.getD_eq_getElem?_getD, h1, h2]
 
-/-- **version_bumps (subsystem stage versions).**  Restoring a subsystem from stage `cur` to a lower stage `g ≥ 1`
+/-- **stage versions (subsystem).**  Restoring a subsystem from stage `cur` to a lower stage `g ≥ 1`
 increases by exactly one the version of every stage `g < i ≤ cur`, leaves the others unchanged. -/
-theorem version_bumps_subsystem (sb : Sub) (g i : Nat) (hg : 1 ≤ g) (hc : g < sb.cur) (hi : i < sb.vers.length) :
+theorem stage_version_bumps_subsystem (sb : Sub) (g i : Nat) (hg : 1 ≤ g) (hc : g < sb.cur) (hi : i < sb.vers.length) :
     (sb.restore g).ver i = if g < i ∧ i ≤ sb.cur then sb.ver i + 1 else sb.ver i := by
   unfold Sub.restore Sub.ver
   rw [if_neg (by omega), if_neg (by omega)]
@@ -245,7 +245,7 @@ theorem version_bumps_subsystem (sb : Sub) (g i : Nat) (hg : 1 ≤ g) (hc : g < 
   · rw [if_neg h, if_neg (fun hx => h ⟨by omega, hx.2⟩)]
 
 /-- stage versions never decrease under an invalidation (system level), whatever the arguments -/
-theorem version_mono_system (st : St) (g i : Nat) : st.sysVers.getD i 0 ≤ (st.invalAll g).sysVers.getD i 0 := by
+theorem stage_version_mono_system (st : St) (g i : Nat) : st.sysVers.getD i 0 ≤ (st.invalAll g).sysVers.getD i 0 := by
   have hv := view_invalAll st g
   have h1 : (st.invalAll g).sysVers = (st.view.invalAllV g).sysVers :=
     show (st.invalAll g).view.sysVers = _ from congrArg St.sysVers hv
@@ -319,7 +319,14 @@ theorem stacks_pop_with_stage {st : St} (hI : Inv st) (g : Nat) (hg : 2 ≤ g) {
   refine ⟨sb', hsb', ?_, ?_⟩
   · intro hlt
     rw [hview]
-    have : sb.restore (g - 1) = sb := by rw [Sub.restore, if_pos (by omega)]
+    rw [restore_view, Sub.restore, if_pos (by show sb.view.cur ≤ g - 1; simp only [Sub.view_cur]; omega)]
+    -- the early return only touches the ghost, which the static view does not contain
+    show ({ sb.view with ces := sb.view.ces.map (fun e => e.unfresh (g - 1) sb.view.cur) } : Sub) = sb.view
+    have : sb.view.ces.map (fun e => e.unfresh (g - 1) sb.view.cur) = sb.view.ces := by
+      simp only [Sub.view, List.map_map]
+      apply List.map_congr_left
+      intro e _
+      exact unfresh_of_static e (g - 1) sb.cur
     rw [this]
   · intro hge
     have hg' := hI.sub hs
@@ -448,18 +455,22 @@ theorem unmark_clears_fresh (st : St) (k : Key) (e : CE) (he : st.ce? k = some e
   simp only [Option.map_some, CE.invN]
   rw [if_neg (by omega)]
 
-/-- changing a variable of a stage ≤ the depends-on stage clears freshness (part 3): after `restoreToStage(g)` of a
-subsystem above `g` *every* surviving entry whose depends-on stage is above `g` is not fresh — whether or not the
-subsystem had reached that stage (specification-level ghost) -/
-theorem restore_clears_fresh (sb : Sub) (g : Nat) (hg : 1 ≤ g) (hc : g < sb.cur) :
+/-- changing a variable of a stage ≤ the depends-on stage clears freshness (part 3): after `restoreToStage(g)`
+*every* surviving entry whose depends-on stage is above `g` is not fresh — whether or not the subsystem had reached
+that stage, i.e. also on the early-return path of the C++ (specification-level ghost) -/
+theorem restore_clears_fresh (sb : Sub) (g : Nat) :
     ∀ e ∈ (sb.restore g).ces, g < e.dep → e.fresh = false := by
   intro e' he' h1
-  rw [Sub.restore, if_neg (by omega), if_neg (by omega)] at he'
-  simp only at he'
-  obtain ⟨e, _, rfl⟩ := List.mem_map.mp he'
-  simp only [CE.unfresh_dep] at h1
-  unfold CE.unfresh
-  rw [if_pos h1]
+  unfold Sub.restore at he'
+  split at he'
+  · obtain ⟨e, _, rfl⟩ := List.mem_map.mp he'
+    simp only [CE.unfresh_dep] at h1
+    unfold CE.unfresh; rw [if_pos h1]
+  · split at he'
+    · simp at he'
+    · obtain ⟨e, _, rfl⟩ := List.mem_map.mp he'
+      simp only [CE.unfresh_dep] at h1
+      unfold CE.unfresh; rw [if_pos h1]
 
 /-- a copied entry is fresh only if its depends-on stage was copied (≤ Instance) and it has no prerequisites (part 4) -/
 theorem copy_clears_fresh (sb : Sub) : ∀ e ∈ (Sub.copyOf sb).ces, e.fresh = true → e.dep ≤ 3 ∧ e.hasPre = false := by
@@ -598,5 +609,190 @@ theorem autoUpdateOne_not_realized (st : St) (k : Key) (dv : DV) (cx : Nat) (hd 
   split
   · rfl
   · simp [hr]
+
+
+/-! ## where the code departs from the property text -/
+
+/-- legality of a whole history as a Boolean (for the concrete counterexamples below) -/
+def legalAll : World → List Op → Bool
+  | _, [] => true
+  | w, op :: ops => legal w op && legalAll (step w op) ops
+
+/-- **Counterexample (finding `cache_valid.marked_one_stage_early_then_variable_changed`).**
+`markCacheValueRealized` is accepted while the subsystem is still one stage below the entry's depends-on stage
+(`StateImpl.h`: `SimTK_STAGECHECK_GE(stage, dependsOn.prev())`).  In this *legal* history a lazy entry depending on
+Position is marked at Time stage, then `updQ()` changes a Position-stage variable (no stage version is bumped: the
+subsystem had not reached Position, `restoreToStage` returns early), then Position is realized: the entry reads
+valid although it was marked before the last change to its depends-on stage — it is not `fresh`.
+This is why `cache_valid_iff` is stated for histories obeying `strict`. -/
+theorem mark_one_stage_early_survives_change :
+    let w0 : World := { sts := [some { subs := [{}] }] }
+    let ops : List Op :=
+      [.on 0 (.allocCE 0 5 10 3), .on 0 (.advSub 0 1), .on 0 (.advSys 1), .on 0 (.advSub 0 2), .on 0 (.advSys 2),
+       .on 0 (.advSub 0 3), .on 0 (.advSys 3), .on 0 (.advSub 0 4), .on 0 (.advSys 4),
+       .on 0 (.mark 0 0), .on 0 (.updQ none), .on 0 (.advSub 0 5), .on 0 (.advSys 5)]
+    legalAll w0 ops = true ∧
+    ((run w0 ops).live 0).map (fun st => (st.isRealized (0, 0), (st.ce? (0, 0)).map CE.fresh)) =
+      some (true, some false) := by
+  decide
+
+/-- **Counterexample (findings `value_version.dv.autoUpdate`, `cache_valid.prerequisite_dv_autoupdate_swap_…`).**
+`autoUpdateDiscreteVariables` swaps the value of an auto-update variable (`DiscreteVarInfo::swapValue`) without
+bumping its value version and without notifying its dependents: here the variable goes 1 → 2, its value version
+stays 1, and the cache entry that declared it as a prerequisite (and was marked before) still reads valid. -/
+theorem autoUpdate_swap_keeps_version_and_dependents :
+    let w0 : World := { sts := [some { subs := [{}] }] }
+    let ops : List Op :=
+      [.on 0 (.allocAutoDV 0 7 1 4), .on 0 (.allocCEpre 0 4 10 false false false [(0, 0)] [] 10),
+       .on 0 (.advSub 0 1), .on 0 (.advSys 1), .on 0 (.advSub 0 2), .on 0 (.advSys 2),
+       .on 0 (.advSub 0 3), .on 0 (.advSys 3), .on 0 (.advSub 0 4), .on 0 (.advSys 4),
+       .on 0 (.setCE 0 0 2), .on 0 (.markDVUpd 0 0), .on 0 (.mark 0 1), .on 0 .autoUpdate]
+    legalAll w0 ops = true ∧
+    ((run w0 ops).live 0).map (fun st => ((st.dv? (0, 0)).map (fun d => (d.value, d.valVer)), st.isRealized (0, 1))) =
+      some (some (2, 1), true) := by
+  decide
+
+/-- **Counterexample (findings `value_version.ce.setCE`, `cache_valid.prerequisite_ce_updCacheEntry_…`).**
+Writing a cache entry's value through `updCacheEntry` neither bumps its value version nor notifies the entries that
+declared it as a prerequisite: the downstream entry marked before the write still reads valid. -/
+theorem updCacheEntry_keeps_version_and_dependents :
+    let w0 : World := { sts := [some { subs := [{}] }] }
+    let ops : List Op :=
+      [.on 0 (.allocCE 0 4 10 5), .on 0 (.allocCEpre 0 4 10 false false false [] [(0, 0)] 50),
+       .on 0 (.advSub 0 1), .on 0 (.advSys 1), .on 0 (.advSub 0 2), .on 0 (.advSys 2),
+       .on 0 (.advSub 0 3), .on 0 (.advSys 3), .on 0 (.advSub 0 4), .on 0 (.advSys 4),
+       .on 0 (.mark 0 0), .on 0 (.mark 0 1), .on 0 (.setCE 0 0 7)]
+    legalAll w0 ops = true ∧
+    ((run w0 ops).live 0).map (fun st => ((st.ce? (0, 0)).map (fun e => (e.value, e.valVer)), st.isRealized (0, 1))) =
+      some (some (7, 1), true) := by
+  decide
+
+/-- `updCacheEntry` in general: value version and dependents of the written entry are untouched -/
+theorem setCE_keeps_valVer (st : St) (s c : Nat) (v : Int) :
+    ((stepS st (.setCE s c v)).ce? (s, c)).map CE.valVer = (st.ce? (s, c)).map CE.valVer := by
+  unfold stepS
+  have : excOf st (.setCE s c v) = none := rfl
+  rw [this]
+  show ((st.modCE (s, c) _).ce? (s, c)).map CE.valVer = _
+  rw [ceOpt_modCE_self]
+  cases st.ce? (s, c) <;> rfl
+
+/-! ## the documented invalidated stage -/
+
+/-- the stage each variable-changing call invalidates *according to the documentation* (State.h) -/
+def docStage (st : St) : SOp → Option Nat
+  | .updZW => some 9          -- "Set z weights. … This will invalidate just Report stage"
+  | op => invalStage st op
+
+/-- the coded table `invalStage` (read off `applyS`) is the documented one, with exactly one exception -/
+theorem invalStage_eq_docStage (st : St) (op : SOp) (h : op ≠ .updZW) : invalStage st op = docStage st op := by
+  cases op <;> first | rfl | exact absurd rfl h
+
+/-- the exception (finding `updZW.invalidated_stage_differs_from_documentation`): system-level `updZWeights()`
+invalidates Dynamics where the documentation (and the per-subsystem overload) say Report -/
+theorem updZWeights_departs_from_documentation (st : St) :
+    invalStage st .updZW = some 7 ∧ docStage st .updZW = some 9 ∧ invalStage st (.updZWsub 0) = some 9 :=
+  ⟨rfl, rfl, rfl⟩
+
+
+/-! ## value versions -/
+
+/-- discrete variable `(s, d)` (dependents aside) in a list of per-subsystem stacks -/
+def at2 (l : List (List DV)) (s d : Nat) : Option DV := (l[s]?).bind (fun x => x[d]?)
+
+theorem at2_prefRel {a b : List (List DV)} (h : PrefRel a b) {s d : Nat} {x y : DV}
+    (hx : at2 a s d = some x) (hy : at2 b s d = some y) : x = y := by
+  unfold at2 at hx hy
+  cases ha : a[s]? with
+  | none => simp [ha] at hx
+  | some la =>
+    cases hb : b[s]? with
+    | none => simp [hb] at hy
+    | some lb =>
+      simp only [ha, hb, Option.bind_some] at hx hy
+      rcases h.2 s la lb ha hb with ⟨r, hr⟩ | ⟨r, hr⟩
+      · have := getElem?_prefix hr hy; rw [hx] at this; cases this; rfl
+      · have := getElem?_prefix hr hx; rw [hy] at this; cases this; rfl
+
+theorem at2_modAt (l : List (List DV)) (s' d' : Nat) (f : DV → DV) (s d : Nat) :
+    at2 (modAt l s' (fun x => modAt x d' f)) s d =
+      if s = s' ∧ d = d' then (at2 l s d).map f else at2 l s d := by
+  unfold at2
+  rw [getElem?_modAt]
+  by_cases hs : s = s'
+  · subst hs
+    simp only [if_true, true_and]
+    cases l[s]? with
+    | none => simp
+    | some x =>
+      simp only [Option.map_some, Option.bind_some, getElem?_modAt]
+      by_cases hd : d = d'
+      · simp [hd]
+      · simp [hd]
+  · simp [hs]
+
+/-- **value versions of discrete variables.**  For every operation other than `autoUpdateDiscreteVariables`: a
+discrete variable whose value is different afterwards has a strictly larger value version (the only operation that
+changes a value is the explicit `updDiscreteVariable`, which bumps the version of that variable and leaves every
+other variable's value, version and update time alone).  The excluded operation violates the clause:
+`autoUpdate_swap_keeps_version_and_dependents`. -/
+theorem dv_value_change_bumps_version (st : St) (op : SOp) (h1 : op ≠ .autoUpdate) (s d : Nat) (x y : DV)
+    (hx : at2 st.dparts s d = some x) (hy : at2 (stepS st op).dparts s d = some y) (hv : y.value ≠ x.value) :
+    x.valVer < y.valVer := by
+  by_cases hset : ∃ s' d' v, op = .setDV s' d' v
+  · obtain ⟨s', d', v, rfl⟩ := hset
+    have hstep : stepS st (.setDV s' d' v) = st.setDV (s', d') v := rfl
+    rw [hstep] at hy
+    cases hdv : st.dv? (s', d') with
+    | none =>
+      have : st.setDV (s', d') v = st := by unfold St.setDV; simp only [hdv]
+      rw [this, hx] at hy; cases hy; exact absurd rfl hv
+    | some dv =>
+      rw [dparts_setDV st (s', d') v dv hdv, at2_modAt] at hy
+      -- the restored stacks are prefixes of the old ones
+      have hpre : PrefRel st.dparts (st.subs.map (fun sb => (sb.restore (dv.inval - 1)).dpart)) := by
+        refine ⟨by simp [St.dparts], ?_⟩
+        intro i a b ha hb
+        simp only [St.dparts, List.getElem?_map, Option.map_eq_some_iff] at ha hb
+        obtain ⟨sb, hsb, rfl⟩ := ha
+        obtain ⟨sb', hsb', rfl⟩ := hb
+        rw [hsb] at hsb'; cases hsb'
+        exact Or.inl (restore_dpart_prefix sb _)
+      split at hy
+      · cases hz : at2 (st.subs.map (fun sb => (sb.restore (dv.inval - 1)).dpart)) s d with
+        | none => simp [hz] at hy
+        | some x' =>
+          rw [hz] at hy
+          simp only [Option.map_some, Option.some.injEq] at hy
+          have : x = x' := at2_prefRel hpre hx hz
+          subst hy; subst this
+          show x.valVer < x.valVer + 1
+          omega
+      · have : x = y := at2_prefRel hpre hx hy
+        exact absurd (by rw [this]) hv
+  · have h2 : ∀ s' d' v, op ≠ .setDV s' d' v := fun s' d' v hop => hset ⟨s', d', v, hop⟩
+    have := at2_prefRel (dvs_change_only_on_request st op h1 h2) hx hy
+    exact absurd (by rw [this]) hv
+
+/-- an explicit update of one discrete variable leaves every *other* discrete variable alone -/
+theorem setDV_other_unchanged (st : St) (s' d' : Nat) (v : Int) (s d : Nat) (hne : ¬(s = s' ∧ d = d')) (x y : DV)
+    (hx : at2 st.dparts s d = some x) (hy : at2 (stepS st (.setDV s' d' v)).dparts s d = some y) : x = y := by
+  have hstep : stepS st (.setDV s' d' v) = st.setDV (s', d') v := rfl
+  rw [hstep] at hy
+  cases hdv : st.dv? (s', d') with
+  | none =>
+    have : st.setDV (s', d') v = st := by unfold St.setDV; simp only [hdv]
+    rw [this, hx] at hy; cases hy; rfl
+  | some dv =>
+    rw [dparts_setDV st (s', d') v dv hdv, at2_modAt, if_neg hne] at hy
+    have hpre : PrefRel st.dparts (st.subs.map (fun sb => (sb.restore (dv.inval - 1)).dpart)) := by
+      refine ⟨by simp [St.dparts], ?_⟩
+      intro i a b ha hb
+      simp only [St.dparts, List.getElem?_map, Option.map_eq_some_iff] at ha hb
+      obtain ⟨sb, hsb, rfl⟩ := ha
+      obtain ⟨sb', hsb', rfl⟩ := hb
+      rw [hsb] at hsb'; cases hsb'
+      exact Or.inl (restore_dpart_prefix sb _)
+    exact at2_prefRel hpre hx hy
 
 end C18
